@@ -316,7 +316,13 @@ class Printer:
 def to_riddle(p, style_of=None):
     types = {n: t for t, n in all_decls(p)}
     pr = Printer(types, style_of)
-    lines = ['enum %s {%s};' % (e, ", ".join('"%s_%d"' % (e.lower(), i) for i in range(n))) for e, n in sorted(p.get('enums', {}).items())]
+    lines = []
+    for e, n in sorted(p.get('enums', {}).items()):
+        if e in p.get('classes', ()):              # an object type: n instances, variables of the type range over them
+            lines.append("class %s {}" % e)
+            lines += ["%s %s_i%d = new %s();" % (e, e.lower(), i, e) for i in range(n)]
+        else:
+            lines.append('enum %s {%s};' % (e, ", ".join('"%s_%d"' % (e.lower(), i) for i in range(n))))
     lines += ["%s %s;" % (t.split(':')[-1], n) for t, n in p['decls']]
     lines += pr.stmts(p['stmts'])
     return "\n".join(lines) + "\n"
@@ -879,6 +885,104 @@ class Gen:
         p = {'decls': decls, 'stmts': stmts, 'enums': {}}
         return p, (M if ev_problem(p, M) else None)
 
+    # ---- (2d) a dead disjunct whose inner flaws have problem literals as resolvers, decisions on those literals, then a
+    #      backjump to root caused by an arithmetic conflict in the last disjunction (bookkeeping of flaws that were never
+    #      active: solver::propagate / pop) ----
+    def backjump(self):
+        r = self.rng
+        nb = r.randint(2, 4)
+        bs = ["b%d" % i for i in range(nb)]
+        decls = [('bool', b) for b in bs] + [('real', 'v')]
+        M = {b: r.random() < 0.5 for b in bs}
+        M['v'] = Fr(r.randint(0, 4))
+        enums, classes = {}, []
+        kind = r.choice(['disj', 'disj', 'bool', 'enum', 'obj', 'mix'])
+        evs = []
+        if kind in ('enum', 'obj', 'mix'):
+            tname = 'Kobj' if kind == 'obj' or (kind == 'mix' and r.random() < 0.5) else 'Colour'
+            enums[tname] = 2
+            if tname == 'Kobj':
+                classes.append(tname)
+            evs = ["e%d" % i for i in range(2)]
+            for e in evs:
+                decls.append(('enum:' + tname, e))
+                M[e] = r.randrange(2)
+
+        def lit(x, pos):
+            return ('b', x) if pos else ('not', ('b', x))
+
+        def core(depth):
+            """statements that cannot all hold, but not by unit propagation alone"""
+            k = kind if kind != 'mix' else r.choice(['disj', 'bool', 'enum'])
+            body = []
+            if k == 'enum' and evs:
+                tname = [t for t, n in decls if n == evs[0]][0]
+                le = self.fresh("le")
+                body.append(('decl', tname, le))
+                M[le] = 0
+                # three variables over two values, pairwise different
+                body += [('c', ('ene', le, evs[0])), ('c', ('ene', le, evs[1])), ('c', ('ene', evs[0], evs[1]))]
+            else:
+                x, y = r.sample(bs, 2)
+                if k == 'bool':
+                    x = self.fresh("lb")
+                    body.append(('decl', 'bool', x))
+                    M[x] = False
+                shape = r.choice(['square', 'chain'])
+                if shape == 'square':
+                    cls = [[lit(x, a), lit(y, b)] for a in (True, False) for b in (True, False)]
+                else:
+                    z = r.choice([b for b in bs if b not in (x, y)] or [y])
+                    cls = [[lit(x, True), lit(y, True)], [lit(x, False), lit(z, True)], [lit(y, False), lit(z, True)], [lit(z, False), lit(x, False)],
+                           [lit(z, False), lit(y, False)]] if z != y else [[lit(x, a), lit(y, b)] for a in (True, False) for b in (True, False)]
+                r.shuffle(cls)
+                body += [('c', ('or', c)) for c in cls]
+            if depth > 0 and r.random() < 0.4:
+                # the contradiction sits one disjunction deeper
+                return [('disj', [body + [('cost', Fr(1))], core(depth - 1) + [('cost', Fr(2))]])]
+            return body
+
+        def true_lits(k):
+            out = []
+            for _ in range(k):
+                x = r.choice(bs)
+                out.append(('c', lit(x, M[x])))
+            return out
+        dead = core(r.choice([0, 0, 1])) + [('cost', Fr(1))]
+        # the surviving disjunct has an inner flaw of its own (a disjunction that holds in the planted model), so that the
+        # cost of the whole disjunction is unknown until the inner flaws of BOTH disjuncts have been expanded
+        x, y = r.sample(bs, 2)
+        alive = true_lits(r.randint(0, 2)) + [('c', ('or', [lit(x, M[x]), lit(y, r.random() < 0.5)]))]
+        r.shuffle(alive)
+        alive.append(('cost', Fr(r.choice([2, 3]))))
+        if evs and r.random() < 0.5:
+            alive.insert(0, ('c', ('eeq' if M[evs[0]] == M[evs[1]] else 'ene', evs[0], evs[1])))
+        first = ('disj', [dead, alive])
+        first_twin = ('disj', [alive])
+        # intermediate decisions: costed disjunctions (dearer than the cheap branch of the last one, hence decided before it)
+        # that fix the free variables occurring in the dead disjunct; the first disjunct holds in the planted model
+        middle = []
+        for _ in range(r.randint(1, 3)):
+            x, y = r.sample(bs, 2)
+            d1 = [('c', lit(x, M[x]))] + ([('c', lit(y, M[y]))] if r.random() < 0.5 else []) + [('cost', Fr(r.choice([2, 2, 3])))]
+            d2 = [('c', lit(x, not M[x]))] + ([('c', lit(y, r.random() < 0.5))] if r.random() < 0.5 else []) + [('cost', Fr(r.choice([3, 4, 5])))]
+            middle.append(('disj', [d1, d2] if r.random() < 0.8 else [d2, d1]))
+        for _ in range(r.randint(0, 2)):
+            x, y = r.sample(bs, 2)
+            middle.append(('c', ('or', [lit(x, M[x]), lit(y, r.random() < 0.5)])))
+        lo = Fr(r.randint(4, 6))
+        last = ('disj', [[('c', ('cmp', 'ge', ({'v': Fr(1)}, -lo))), ('c', ('cmp', r.choice(['le', 'lt']), ({'v': Fr(1)}, -(lo - r.choice([1, 2, 3]))))), ('cost', Fr(1))],
+                         [('c', ('cmp', 'ge', ({'v': Fr(1)}, Fr(0)))), ('c', ('cmp', 'le', ({'v': Fr(1)}, -M['v']))), ('cost', Fr(r.choice([3, 4])))]])
+        stmts = [first] + middle + [last]
+        twin = [first_twin] + middle + [last]
+        if r.random() < 0.25:
+            stmts = [last] + middle + [first]
+            twin = [last] + middle + [first_twin]
+        p = {'decls': decls, 'stmts': stmts, 'enums': enums, 'classes': classes}
+        q = {'decls': decls, 'stmts': twin, 'enums': enums, 'classes': classes}
+        assert ev_problem(p, M) and ev_problem(q, M)
+        return p, M, q
+
     # ---- (3) equivalence classes ----
     def variants(self, p, k=3, force=()):
         """semantically equivalent rewritings of p: [(name, problem, style_of)]"""
@@ -1015,4 +1119,5 @@ def rename(p, ren):
         if s[0] == 'cost':
             return s
         return ('disj', [[rs(t) for t in b] for b in s[1]])
-    return {'decls': [(t, ren[n]) for t, n in p['decls']], 'stmts': [rs(s) for s in p['stmts']], 'enums': dict(p.get('enums', {}))}
+    return {'decls': [(t, ren[n]) for t, n in p['decls']], 'stmts': [rs(s) for s in p['stmts']], 'enums': dict(p.get('enums', {})),
+            'classes': list(p.get('classes', ()))}
